@@ -62,8 +62,26 @@ Fixpoint tc_words (ts : list (list N * Z)) (acc : list (list N)) : option (list 
     else tc_words r (acc ++ [key; format_time dur])
   end.
 
-(* goCmd; [dl] = deadline.Sub(time.Now()) when the context has a deadline *)
+(* goCmd; [dl] = left := deadline.Sub(time.Now()) when the context has a deadline.  None = errors.New("Timeout too short").
+   Repaired tree (fix "tei client refuses a deadline less than a millisecond away instead of sending movetime 0"):
+   `if left < time.Millisecond { return ..., errors.New("Timeout too short") }` before the movetime word is appended. *)
 Definition go_words (dl : option Z) (tc : option tctl) : option (list (list N)) :=
+  let g := [s_go] in
+  match (match dl with
+         | Some d => if (d <? 1000000)%Z then None else Some (g ++ [s_movetime; format_time d])
+         | None => Some g
+         end) with
+  | None => None
+  | Some g =>
+    match tc with
+    | None => Some g
+    | Some t => tc_words [(s_wtime, tc_white t); (s_btime, tc_black t); (s_winc, tc_winc t); (s_binc, tc_binc t)] g
+    end
+  end.
+
+(* the code before that repair (kept as the record of the finding): every deadline is sent, one less than 1 ms ahead or already
+   passed as `movetime 0` *)
+Definition go_words_pinned (dl : option Z) (tc : option tctl) : option (list (list N)) :=
   let g := [s_go] in
   let g := match dl with Some d => g ++ [s_movetime; format_time d] | None => g end in
   match tc with
